@@ -43,7 +43,8 @@ Theorem C17_window_covers : forall m ps off len, 0 < ps -> off + len + ps < W64 
     page_base <= off /\ off + len <= page_base + msize /\ page_base + msize < off + len + ps.
 Proof. exact window_covers_lemma. Qed.
 
-(* every guarded access operation (write, read, read_volatile_from, write_volatile_to, slice guard,
+(* every guarded access operation (write, read, read_volatile_from, write_volatile_to - with a byte buffer and
+   with a descriptor (File) as the other end -, read_exact_volatile_from / write_all_volatile_to with a descriptor, slice guard,
    slice copy_from/copy_to, typed store/load, array element store/load, array copy_from/copy_to) that completes on an on-demand region touched only bytes
    inside the window the same operation had mapped: whole pages, with the map ioctl for exactly
    (first grant, page count) and the mmap of exactly that many bytes at the index the device returned
@@ -59,6 +60,17 @@ Theorem C17_access_inside_window : forall m o g op goff glen wr toff tlen l w,
   In (EvIoctlMap (w_gref w) (w_count w) (w_index w) true) l /\
   (exists prot, In (EvMmap (w_msize w) prot (xr_flags g) true (w_index w) true) l).
 Proof. exact access_inside_window_lemma. Qed.
+
+(* descriptor streams: the stream entry points whose other end is a File (the bytes move in a read(2)/write(2)
+   system call made while the guard lives, io.rs:177-227) take exactly the windows of the buffer forms, on every
+   region and in both profiles: read_volatile_from / write_volatile_to those of the &[u8] / Vec forms, the
+   exact / all forms (file long enough, sink taking every write in full) one window over the whole slice *)
+Theorem C17_fd_streams_same_windows : forall m o g off count flen,
+  run_op m o g (XReadFromFd off count flen) = run_op m o g (XReadFrom off count flen) /\
+  run_op m o g (XWriteToFd off count) = run_op m o g (XWriteTo off count) /\
+  run_op m o g (XReadExactFromFd off count) = run_op m o g (XSliceGuard off count true) /\
+  run_op m o g (XWriteAllToFd off count) = run_op m o g (XSliceGuard off count false).
+Proof. exact fd_streams_same_windows_lemma. Qed.
 
 (* windows_released: after ANY sequence of operations on any region - completed, failed and
    panicking ones alike, any device answers - as long as the kernel grants the window mmaps, no
@@ -96,6 +108,10 @@ Proof. exact unguarded_refuted_lemma. Qed.
 Example C17_nonvacuous :
   fst (run_op Debug demo_os demo_region (XWrite 4090 8)) =
     [EvIoctlMap 64 2 262144 true; EvMmap 8192 2 16385 true 262144 true; EvMunmap 8192; EvIoctlUnmap 262144 2] /\
+  fst (run_op Debug demo_os demo_region (XReadExactFromFd 4090 8)) =
+    [EvIoctlMap 64 2 262144 true; EvMmap 8192 2 16385 true 262144 true; EvMunmap 8192; EvIoctlUnmap 262144 2] /\
+  fst (run_op Debug demo_os demo_region (XWriteToFd 100 8)) =
+    [EvIoctlMap 64 1 262144 true; EvMmap 4096 1 16385 true 262144 true; EvMunmap 4096; EvIoctlUnmap 262144 1] /\
   on_demand demo_region = true /\ guard_len Debug (AArray 4 4) = Val 16.
 Proof. vm_compute. repeat split. Qed.
 
@@ -104,6 +120,7 @@ Print Assumptions C17x_model_ok.
 Print Assumptions C17_guard_len_bytes.
 Print Assumptions C17_window_covers.
 Print Assumptions C17_access_inside_window.
+Print Assumptions C17_fd_streams_same_windows.
 Print Assumptions C17_windows_released.
 Print Assumptions C17_window_leak_on_mmap_failure_witness.
 Print Assumptions C17_zero_len_guard_noop.
